@@ -1324,7 +1324,8 @@ class SMPose(SMUserList):
         =========   ==========   ====  ================================
 
         """
-        return [not x for x in left == right]
+        assert type(left) == type(right), 'operands to != are of different types'
+        return left._op2(right, lambda x, y: not np.allclose(x, y))
 
     def _op2(left, right, op):  # lgtm[py/not-named-self] pylint: disable=no-self-argument
         """
